@@ -439,6 +439,11 @@ class VM:
     def op_pass_stmt(self, frame, s):
         pass
 
+    def op_expression_stmt(self, frame, s):
+        # TypeScript frontend: a marker row after every expression statement, naming the value that is discarded.  It is
+        # outside the shared vocabulary (C02 reports that once); executing it as a no-op lets the rest of the unit be judged.
+        pass
+
     def op_comment_stmt(self, frame, s):
         pass
 
